@@ -19,19 +19,33 @@ from genlib import gen_request, generate
 def prepare(tier, schema, farm_name, options=None, want_docs=None):
     """Generate + compile the operation space. Returns (farm, entries) where each entry is a dict
     with focus, labels, doc, query text, validity, generator status and farm case id."""
-    sdl = schema.sdl()
     entries = []
     for focus, labels, doc in (want_docs if want_docs is not None else space.operation_space(tier)):
         errs = gql.validate(schema, doc)
-        entries.append({"focus": focus, "labels": labels, "doc": doc, "query": gql.render_doc(doc), "errs": errs})
-    reqs = [gen_request(sdl, e["query"], options) for e in entries]
+        entries.append({"focus": focus, "labels": labels, "doc": doc, "query": gql.render_doc(doc), "errs": errs, "schema": schema,
+                        "schema_name": "CORE"})
+    if want_docs is None:
+        # second schema pack: the feature lattice of C07 (full set and every single construct) with its covering
+        # operations - constructs CORE does not have (deeper nesting, deprecated enum values, argument defaults,
+        # explicit root names, extensions, several custom scalars ...)
+        from checks import c07
+        sets = [tuple(c07.FEATURES)] + [(f,) for f in c07.FEATURES]
+        if tier == "thorough":
+            import itertools
+            sets += list(itertools.combinations(c07.FEATURES, 2))
+        for fs in sets:
+            sch, docs = c07.build(fs)
+            for dname, doc in docs:
+                entries.append({"focus": "lattice " + "+".join(fs), "labels": [dname], "doc": doc, "query": gql.render_doc(doc),
+                                "errs": gql.validate(sch, doc), "schema": sch, "schema_name": "lattice " + "+".join(fs)})
+    reqs = [gen_request(e["schema"].sdl(), e["query"], options) for e in entries]
     resps = generate(reqs)
     farm = Farm(farm_name)
     for e, r in zip(entries, resps):
         e["gen"] = r["status"]
         e["gen_msg"] = r.get("msg")
         if r["status"] == "ok" and not e["errs"]:
-            c = Case(r["tokens"], [("op", "Op")], prelude="pub type Date = String;")
+            c = Case(r["tokens"], [("op", "Op")], prelude="pub type Date = String; pub type Zoned = String; pub type date_time = String;")
             e["case"] = farm.add(c)
         else:
             e["case"] = None
@@ -52,7 +66,7 @@ def run(tier):
     reqs, meta = [], []
     bounds = {"full_product": 0, "deviation_bound": 0, "deviation_bound_capped": 0}
     for e in judged:
-        ex = gql.Executor(schema, e["doc"])
+        ex = gql.Executor(e["schema"], e["doc"])
         op = e["doc"].ops[0]
         vectors, bound = ex.payloads(op, full_cap=256, dev=2, dev_cap=3000 if tier == "quick" else 6000)
         bounds[bound["mode"]] += 1
@@ -71,17 +85,19 @@ def run(tier):
     per_op_fail = {}
     suspects = []
     for (e, choices, payload, what), r, q in zip(meta, resps, reqs):
-        case = {"schema": "CORE", "query": e["query"], "payload": payload, "entry": what, "focus": e["focus"],
+        case = {"schema": e["schema_name"], "query": e["query"], "payload": payload, "entry": what, "focus": e["focus"],
                 "items": e["labels"]}
+        if e["schema_name"] != "CORE":
+            case["sdl"] = e["schema"].sdl()
         if r is None:
             continue
         sigs = e.get("sigs")
         if sigs is None:
-            sigs = e["sigs"] = kfpred.c01_sigs(schema, e["doc"])
+            sigs = e["sigs"] = kfpred.c01_sigs(e["schema"], e["doc"])
         if r.get("crash") or r.get("panic"):
             rep.violation("crash", case, r, kfpred.sigs_at(sigs))
             continue
-        ex = gql.Executor(schema, e["doc"])
+        ex = gql.Executor(e["schema"], e["doc"])
         op = e["doc"].ops[0]
         if not r["ok"]:
             outcomes.add("deser_err")
